@@ -238,7 +238,13 @@ func runHarness() {
 	fileDir := filepath.Join(scratch, "files")
 	os.MkdirAll(fileDir, 0o755)
 
-	mesh, err := tunnelmesh.New(3, scratch, func(i int, cfg *config.Config) {
+	mesh, err := tunnelmesh.New(4, scratch, func(i int, cfg *config.Config) {
+		if i == 3 {
+			// S: ingress with the plain-TCP SOCKS5 listener and a short idle threshold
+			cfg.SOCKS5.Enabled = true
+			cfg.SOCKS5.Address = "127.0.0.1:0"
+			cfg.Connections.IdleThreshold = socksIdle
+		}
 		if i == 2 {
 			cfg.Exit.Enabled = true
 			cfg.Exit.Routes = []string{"127.0.0.0/8"}
@@ -259,7 +265,14 @@ func runHarness() {
 	defer mesh.Close()
 	e.mesh = mesh
 	mesh.SetTap(e.rec.tap)
-	if err := mesh.Chain(); err != nil {
+	// A(0) - B(1) - D(2), and S(3) - B
+	if err := mesh.Connect(0, 1); err != nil {
+		panic(err)
+	}
+	if err := mesh.Connect(1, 2); err != nil {
+		panic(err)
+	}
+	if err := mesh.Connect(3, 1); err != nil {
 		panic(err)
 	}
 	if err := e.waitRoutes(); err != nil {
@@ -313,7 +326,15 @@ func (e *env) waitRoutes() error {
 				known = true
 			}
 		}
-		return cidr && known && a.LookupForwardRoute("c07fwd") != nil
+		sroute := len(e.mesh.Nodes) < 4
+		if !sroute {
+			for _, r := range e.mesh.Nodes[3].Agent.GetRoutes() {
+				if r.Network.String() == "127.0.0.0/8" {
+					sroute = true
+				}
+			}
+		}
+		return cidr && known && sroute && a.LookupForwardRoute("c07fwd") != nil
 	})
 }
 
@@ -394,6 +415,9 @@ func (e *env) runAll() {
 
 	// seal + hand-over is one critical section where two goroutines share a key
 	e.twoPumps()
+	// the first data frame after the open acknowledgment; the SOCKS5 listener past its idle threshold
+	e.firstFrameAfterAck()
+	e.socksPastIdleThreshold()
 	// receiver-side buffering under back-pressure
 	if virtualTime != nil {
 		virtualTime(e)
@@ -419,6 +443,10 @@ func (e *env) runOne(r caseRec) {
 			e.e2eShellSlowConsumer()
 		case r.Path == "two-pumps":
 			e.twoPumps()
+		case r.Path == "first-frame-after-ack-exit" || r.Path == "first-frame-after-ack-forward":
+			e.firstFrameAfterAck()
+		case r.Path == "socks5-past-idle-threshold":
+			e.socksPastIdleThreshold()
 		case r.Path == "stream-buffer-virtual":
 			if virtualTime != nil {
 				virtualTime(e)
